@@ -1058,4 +1058,104 @@ theorem mergeDicts_shape (env : Env) (la : Option Str) (l : List (Key × Node)) 
   | error e => rw [hl] at h; cases h
   | ok st => rw [hl] at h; cases h; exact ⟨st, rfl, rfl⟩
 
+/-- A list is duplicate-free when its two halves under a predicate are. -/
+theorem nodup_of_filter {α : Type} [DecidableEq α] (p : α → Bool) : ∀ (xs : List α),
+    (xs.filter p).Nodup → (xs.filter (fun x => !p x)).Nodup → xs.Nodup := by
+  intro xs
+  induction xs with
+  | nil => intro _ _; exact List.nodup_nil
+  | cons x rest ih =>
+    intro h1 h2
+    simp only [List.filter_cons] at h1 h2
+    cases hp : p x with
+    | true =>
+      simp only [hp, ↓reduceIte, Bool.not_true, Bool.false_eq_true, List.nodup_cons] at h1 h2
+      refine List.nodup_cons.mpr ⟨?_, ih h1.2 h2⟩
+      intro hx; exact h1.1 (List.mem_filter.mpr ⟨hx, hp⟩)
+    | false =>
+      simp only [hp, Bool.false_eq_true, ↓reduceIte, Bool.not_false, List.nodup_cons] at h1 h2
+      refine List.nodup_cons.mpr ⟨?_, ih h1 h2.2⟩
+      intro hx; exact h2.1 (List.mem_filter.mpr ⟨hx, by simp [hp]⟩)
+
+/-! ## Nothing is lost in an AoH DEEP merge (key level) -/
+
+theorem KeysGrow_trans {x y z : Node} (h1 : KeysGrow x y) (h2 : KeysGrow y z) : KeysGrow x z := by
+  cases h1 with
+  | same => exact h2
+  | grown a es es' h =>
+    cases h2 with
+    | same => exact KeysGrow.grown a es es' h
+    | grown _ _ es'' h' => exact KeysGrow.grown a es es'' (fun k hk => h' k (h k hk))
+
+/-- `y` is a Hash with at least the keys `K`. -/
+def HasKeys (K : List Key) (y : Node) : Prop := ∃ a es, y = .map a es ∧ ∀ k ∈ K, k ∈ keys es
+
+theorem HasKeys.grow {K : List Key} {y z : Node} (h : HasKeys K y) (hg : KeysGrow y z) : HasKeys K z := by
+  cases hg with
+  | same => exact h
+  | grown a es es' hsub =>
+    obtain ⟨a0, es0, e, hk⟩ := h
+    cases e
+    exact ⟨a, es', rfl, fun k hk' => hsub k (hk k hk')⟩
+
+theorem getElem?_replace_eq {α : Type} (pre post : List α) (b : α) :
+    (pre ++ b :: post)[pre.length]? = some b := by
+  simp
+
+theorem mergeDicts_KeysGrow (env : Env) (lh par : Node) (es : List (Key × Node)) (m : Node)
+    (h : mergeDicts env lh par es = .ok m) : KeysGrow lh m ∧ HasKeys (keys es) m := by
+  cases lh with
+  | map la les =>
+    obtain ⟨st, hl, rfl⟩ := mergeDicts_shape env la les par es m h
+    have hk := fun k => dictLoop_mem_keys env par k es _ _ hl
+    refine ⟨KeysGrow.grown la les _ (fun k hkl => (hk k).mpr (.inl (by simpa [keys] using hkl))),
+      la, _, rfl, fun k hkr => (hk k).mpr (.inr hkr)⟩
+  | scalar _ _ => simp [mergeDicts, dictWrap] at h
+  | seq _ _ => simp [mergeDicts, dictWrap] at h
+  | set _ _ => simp [mergeDicts, dictWrap] at h
+
+theorem AohStep_grows {env : Env} {idKey : Key} {litems : List Node} {a : Option Str}
+    {es : List (Key × Node)} {out : List Node} (h : AohStep env idKey litems a es out) :
+    (∀ (i : Nat) (x : Node), litems[i]? = some x → ∃ y, out[i]? = some y ∧ KeysGrow x y) ∧
+    ∃ (j : Nat) (y : Node), out[j]? = some y ∧ HasKeys (keys es) y := by
+  cases h with
+  | append idv _ _ =>
+    refine ⟨?_, litems.length, .map a es, by simp, a, es, rfl, fun _ h => h⟩
+    intro i x hx
+    have hi : i < litems.length := by
+      cases Nat.lt_or_ge i litems.length with
+      | inl h => exact h
+      | inr h => rw [List.getElem?_eq_none h] at hx; cases hx
+    exact ⟨x, by rw [List.getElem?_append_left hi]; exact hx, KeysGrow.same x⟩
+  | merge idv pre lh post m hid e _ hlh hm =>
+    subst e
+    have hg := mergeDicts_KeysGrow env lh _ es m hm
+    refine ⟨?_, pre.length, m, getElem?_replace_eq pre post m, hg.2⟩
+    intro i x hx
+    by_cases hi : i = pre.length
+    · subst hi
+      rw [getElem?_replace_eq] at hx; cases hx
+      exact ⟨m, getElem?_replace_eq pre post m, hg.1⟩
+    · exact ⟨x, by rw [getElem?_replace_ne pre post lh m i hi]; exact hx, KeysGrow.same x⟩
+
+theorem AohDeep_grows {env : Env} {idKey : Key} {litems ritems out : List Node}
+    (h : AohDeep env idKey litems ritems out) :
+    (∀ (i : Nat) (x : Node), litems[i]? = some x → ∃ y, out[i]? = some y ∧ KeysGrow x y) ∧
+    (∀ a es, Node.map a es ∈ ritems → ∃ y ∈ out, HasKeys (keys es) y) := by
+  induction h with
+  | nil l => exact ⟨fun i x hx => ⟨x, hx, KeysGrow.same x⟩, by intro a es h; cases h⟩
+  | cons l l1 out a es rest hstep _ ih =>
+    obtain ⟨hs1, j, y, hj, hy⟩ := AohStep_grows hstep
+    refine ⟨?_, ?_⟩
+    · intro i x hx
+      obtain ⟨y1, h1, g1⟩ := hs1 i x hx
+      obtain ⟨y2, h2, g2⟩ := ih.1 i y1 h1
+      exact ⟨y2, h2, KeysGrow_trans g1 g2⟩
+    · intro a' es' hmem
+      rcases List.mem_cons.mp hmem with e | hmem
+      · cases e
+        obtain ⟨y2, h2, g2⟩ := ih.1 j y hj
+        exact ⟨y2, List.mem_of_getElem? h2, hy.grow g2⟩
+      · exact ih.2 a' es' hmem
+
 end Ypv.Merge
